@@ -20,7 +20,7 @@ Line-protocol driver of the C17 path post-processing model (header `pathops`).
   bgoal <obj> <attempts> <rangeRatio> <snap> <k> <u>*k cm …          (findBetterGoal, scripted draws, goals cycle)
   perturbs <obj> <step> <ms> <me> <snap> <kh> <h>*kh <ks> <state>*ks cm …   (perturbPath, scripted draws + scripted sampler)
   repair <attempts> <k> <sample>*k iv <m> (<state> <0/1>)*m cm …   -> r <2*originalValid + result> out …
-  pshort <ms> <me> <rangeRatio> <snap> <k> <u>*k cm …   -> <result> | old <result of the code before fix F55> | ord <result with the proposed fix F170: checkMotion in path order>
+  pshort <ms> <me> <rangeRatio> <snap> <k> <u>*k cm …   -> <result (tree: checkMotion in path order, fix F170)> | old <code before fix F55> | sampling <code before fix F170>
 answers `r <ret> out <k> <state>*k` (`r -1` for the void routines), `idx-error` if the model's checked
 indexing fails.  `cm` is the checkMotion transcript recorded by the harness on the real code: the
 model's `checkMotion` oracle is that table keyed by the pair of states (bit patterns); a pair that
@@ -237,7 +237,9 @@ def step (st : DSt) (ts : List String) : DSt × String :=
               match partialShortcutPathOrd E (fun i => usA.getD i 0.0) ms me rr snap st.path with
               | some (out, r) => "r " ++ retStr r ++ " " ++ showPath out
               | none => "idx-error"
-            (st, show1 true ++ " | old " ++ show1 false ++ " | ord " ++ showOrd)
+            -- the tree's code (since fix 7afd3abe1, F170: checkMotion in path order) first, then the code before fix F55, then
+            -- the code between the two fixes (checkMotion in sampling order)
+            (st, showOrd ++ " | old " ++ show1 false ++ " | sampling " ++ show1 true)
           | _, _, _, _, _, _ => (st, "bad-op")
         | "goals", n :: r =>
           match (do let n ← parseNat? n; pStates sp n r) with
